@@ -191,6 +191,14 @@ Proof.
   repeat split; auto. exists p. split; reflexivity.
 Qed.
 
+Lemma burn_inv s c :
+  burn s c = s \/ exists p p', get_prov s c = Some p /\ p_addr p' = p_addr p /\ burn s c = set_prov s p'.
+Proof.
+  unfold burn. destruct (upd_prov s c true _) as [s1 o1] eqn:U. apply upd_inv in U. cbn [fst].
+  destruct U as [[_ ->]|(_ & _ & p & G & ->)]; [left; reflexivity | right].
+  eexists p, _. split; [exact G|]. split; [|reflexivity]. reflexivity.
+Qed.
+
 (* every non-money operation is "nothing" or "SetProviders (g p)" for the signer's record p, g keeping Address *)
 Lemma mgmt_inv s o c : op_signer o = Some c ->
   match o with OInit _ _ _ _ _ _ | OShutdown _ _ => False | _ => True end ->
@@ -287,6 +295,7 @@ Proof.
   - pose proof (mgmt_inv s (ORemoveClaimer c vb cl) c eq_refl Logic.I) as [[_ ->]|[_ (p & p' & _ & _ & ->)]]; [exact I | apply Inv_set_prov; exact I].
   - (* a bank send to the escrow address is refused *)
     cbn [step]. unfold donate. destruct (x <=? 0); [exact I|]. rewrite BL. exact I.
+  - cbn [step fst]. destruct (burn_inv s c) as [->|(p & p' & _ & _ & ->)]; [exact I | apply Inv_set_prov; exact I].
 Qed.
 
 Lemma run_Inv ops : forall s, Inv s -> Forall signed_ok ops -> Inv (run s ops).
@@ -321,6 +330,7 @@ Proof.
   - pose proof (mgmt_inv s (ORemoveClaimer c vb cl) c eq_refl Logic.I) as [[_ ->]|[_ (p & p' & _ & _ & ->)]]; exact NN.
   - cbn [step]. unfold donate. destruct (x <=? 0); [exact NN|]. destruct (is_blocked s escrow); [exact NN|].
     destruct (send _ _ _ _); exact NN.
+  - cbn [step fst]. destruct (burn_inv s c) as [->|(p & p' & _ & _ & ->)]; exact NN.
 Qed.
 
 Lemma run_nonneg ops : forall s, nonneg s -> nonneg (run s ops).
@@ -520,6 +530,7 @@ Proof.
   - pose proof (mgmt_inv s (OAddClaimer c vb cl) c eq_refl Logic.I) as [[_ ->]|[_ (p & p' & _ & _ & ->)]]; reflexivity.
   - pose proof (mgmt_inv s (ORemoveClaimer c vb cl) c eq_refl Logic.I) as [[_ ->]|[_ (p & p' & _ & _ & ->)]]; reflexivity.
   - cbn [step]. unfold donate. destruct (x <=? 0); [reflexivity|]. rewrite BL. reflexivity.
+  - cbn [step fst]. destruct (burn_inv s c) as [->|(p & p' & _ & _ & ->)]; reflexivity.
 Qed.
 
 Lemma run_wealth ops : forall s a, Inv s -> Forall signed_ok ops -> a <> escrow -> wealth (run s ops) a = wealth s a.
@@ -576,6 +587,7 @@ Proof.
   - pose proof (mgmt_inv s (ORemoveClaimer c vb cl) c eq_refl Logic.I) as [[_ ->]|[_ (p & p' & G & E & ->)]]; [exact A | eapply SP; eauto].
   - cbn [step]. unfold donate. destruct (x <=? 0); [exact A|]. destruct (is_blocked s escrow); [exact A|].
     destruct (send _ _ _ _); exact A.
+  - cbn [step fst]. destruct (burn_inv s c) as [->|(p & p' & G & E & ->)]; [exact A | eapply SP; eauto].
 Qed.
 
 Lemma run_addr_ok ops : forall s, addr_ok s -> addr_ok (run s ops).
@@ -668,4 +680,21 @@ Proof.
     destruct (Nat.eqb _ _); [discriminate|]. cbn [fst].
     exists p. split; [reflexivity|]. rewrite get_prov_set. unfold with_claimers at 1; cbn [p_addr].
     rewrite (A _ _ G), sg_eqb_refl. reflexivity.
+Qed.
+
+(* ---- the reward block's strike: the record stays, no collateral record and no balance moves ---- *)
+Lemma burn_keeps_record_and_money s c :
+  addr_ok s ->
+  st_coll (burn s c) = st_coll s /\ st_bank (burn s c) = st_bank s /\ st_price (burn s c) = st_price s /\
+  (forall d, get_prov (burn s c) d = None <-> get_prov s d = None) /\
+  (forall d, d <> c -> get_prov (burn s c) d = get_prov s d).
+Proof.
+  intros A. destruct (burn_inv s c) as [->|(p & p' & G & E & ->)].
+  - repeat split; auto.
+  - pose proof (A _ _ G) as Ac. rewrite <- E in Ac.
+    split; [reflexivity|]. split; [reflexivity|]. split; [reflexivity|]. split.
+    + intros d. rewrite get_prov_set. destruct (sg_eqb d (p_addr p')) eqn:X.
+      * apply sg_eqb_spec in X. subst d. rewrite Ac, G. split; discriminate.
+      * tauto.
+    + intros d Nd. apply set_prov_frame. rewrite Ac. exact Nd.
 Qed.
